@@ -149,7 +149,7 @@ IllFormed(ev) ==
        \cup If("plain" \in DOMAIN ev /\ ev.plain.out = "ok" /\ ev.plain.nvars # n, "an auxiliary shares its name with a user variable (renaming the user variable changes the number of variables)")
 ErrKinds == {"NonLinearExpression", "DivisionByZero", "EmptyAggregation", "VarAlreadyDeclared",
              "UnimplementedExpression", "NonBinaryLogicOperand", "MissingFiniteBounds",
-             "NonFiniteConstant", "InvalidDomain", "UndeclaredVariable"}
+             "NonFiniteConstant", "InvalidDomain", "UndeclaredVariable", "LaterKind"}
 \* a declared range that is not a domain: minimum above maximum, or a NonNegativeReal starting below zero
 InvalidDom(d) == \/ (d.lo.inf = 0 /\ d.hi.inf = 0 /\ d.lo.n * d.hi.d > d.hi.n * d.lo.d)
                  \/ (d.kind = "nnreal" /\ d.lo.inf = 0 /\ d.lo.n < 0)
